@@ -77,6 +77,17 @@ Example spec_recovery_nonvacuous :
                     mkSnap 1 false [SErr EFetch; SErr EFetch; SErr EFetch] [] true]) = false.
 Proof. vm_compute. auto. Qed.
 
+(* one kid, two key types (RFC 7517 4.5), the non-fitting type listed first: the served signer verifies *)
+Example spec_same_kid_two_types_nonvacuous :
+  let body := Http true (Doc [Some (mkJwk "a" KRsa "sig" 9); Some xkA; Some (mkJwk "" KOkp "sig" 7)]) in
+  let sc := Script false [MArrive xtA; MRelease body; MArrive xtA] in
+  spec sc (model sc) = true /\
+  model sc = OScript [mkSnap 1 false [SPending] [] true; mkSnap 1 true [SOk] [9; 1; 7] true;
+                      mkSnap 1 false [SOk; SOk] [9; 1; 7] true] /\
+  spec sc (OScript [mkSnap 1 false [SPending] [] true; mkSnap 1 true [SErr ESig] [9; 1; 7] true;
+                    mkSnap 1 false [SErr ESig; SErr ESig] [9; 1; 7] true]) = false.
+Proof. vm_compute. auto. Qed.
+
 (* and rejects what the unrepaired code did (F13): B fails when A is cancelled *)
 Example spec_rejects_F13 :
   spec (Script false [MArrive xtA; MArrive xtA; MCancel 0; MRelease xgood1])
